@@ -69,8 +69,10 @@ pub struct FilterEvent {
 pub struct FilterShared {
     pub seed: u64,
     pub log: Mutex<Vec<FilterEvent>>,
-    /// keys for which RemoveWeak / Destroy may be returned (single-delete discipline keys)
-    pub weak_ok: BTreeSet<Key>,
+    /// keys for which RemoveWeak / Destroy may be returned: keys that were written only once
+    /// (exactly one insert in their whole history); refreshed by the executor before every
+    /// structural op, because only then the property promises an outcome for these verdicts
+    pub weak_ok: Mutex<BTreeSet<Key>>,
     pub large_len: usize,
     pub made: Mutex<u64>,
 }
@@ -100,8 +102,8 @@ pub fn filter_verdict(sh: &FilterShared, key: &[u8], value: &[u8]) -> FVerdict {
         10 => FVerdict::Replace(replaced(9)),
         11 => FVerdict::Replace(replaced(sh.large_len)),
         12 => FVerdict::Replace(replaced(24)),
-        13 if sh.weak_ok.contains(key) => FVerdict::RemoveWeak,
-        14 if sh.weak_ok.contains(key) => FVerdict::Destroy,
+        13 | 7 if sh.weak_ok.lock().unwrap_or_else(|e| e.into_inner()).contains(key) => FVerdict::RemoveWeak,
+        14 | 6 if sh.weak_ok.lock().unwrap_or_else(|e| e.into_inner()).contains(key) => FVerdict::Destroy,
         _ => FVerdict::Keep,
     }
 }
@@ -244,9 +246,8 @@ fn shift_key(k: &[u8], delta: i8) -> Key {
 impl Instance {
     pub fn create(dir: &Path, cfg: TreeCfg, uni: Arc<Universe>, opts: InstOpts) -> Result<Self, Violation> {
         let filter = opts.filter_seed.map(|seed| {
-            let weak_ok = uni.of_class(Class::W).into_iter().map(|i| uni.keys[i].clone()).collect();
             let large_len = opts.filter_large_len;
-            Arc::new(FilterShared { seed, log: Mutex::new(vec![]), weak_ok, large_len, made: Mutex::new(0) })
+            Arc::new(FilterShared { seed, log: Mutex::new(vec![]), weak_ok: Mutex::new(BTreeSet::new()), large_len, made: Mutex::new(0) })
         });
         let mut me = Self {
             dir: dir.to_path_buf(),
@@ -459,6 +460,20 @@ impl Instance {
         if !op.is_write() && self.tree.is_some() {
             // physical state of the single-delete keys right before a structural op
             self.phys_prev = self.physical_w_entries();
+            if let Some(f) = &self.filter {
+                // RemoveWeak / Destroy only have a promised outcome for keys written only once
+                let mut once = BTreeSet::new();
+                for i in self.uni.of_class(Class::W) {
+                    let k = &self.uni.keys[i];
+                    let es = self.model.newest().map.get(k);
+                    let puts = es.map_or(0, |es| es.iter().filter(|e| matches!(e.kind, MKind::Put(_))).count());
+                    let dels = es.map_or(0, |es| es.iter().filter(|e| e.kind == MKind::Del).count());
+                    if puts == 1 && dels == 0 && !self.model.newest().taint.contains_key(k) {
+                        once.insert(k.clone());
+                    }
+                }
+                *f.weak_ok.lock().unwrap_or_else(|e| e.into_inner()) = once;
+            }
         }
         match op {
             Op::Put { k, vlen } => {
